@@ -56,6 +56,15 @@ Theorem text_roundtrip_omit : forall n : name,
 Proof. exact NameText.text_roundtrip_omit. Qed.
 Print Assumptions text_roundtrip_omit.
 
+(* any text the library accepts (octets 0..255) gives a name over octets whose printed form
+   parses back to that same name: parse / print / parse is stable *)
+Theorem text_normal_form : forall (text : list Z) (origin : option name) (n : name),
+  byte_l text -> (forall o, origin = Some o -> AllBytes o) ->
+  from_text text origin = Ok n ->
+  AllBytes n /\ from_text (to_text n) None = Ok n.
+Proof. exact NameText.text_normal_form. Qed.
+Print Assumptions text_normal_form.
+
 (* ---- the zone-file path: Tokenizer.get() / get_name on the printed name ---- *)
 (* the printed form of any name over all 256 octet values is returned by the tokenizer as ONE
    identifier token, whatever follows it (end of input or any delimiter: blank, newline, ';',
@@ -103,6 +112,16 @@ Theorem to_wire_roundtrip : forall (n : name) (origin : option name) (w pre post
     from_wire (pre ++ w ++ post) (length pre) = Ok (labels, length w).
 Proof. exact NameCompress.to_wire_roundtrip. Qed.
 Print Assumptions to_wire_roundtrip.
+
+(* whatever from_wire decodes, from any message (compressed or not), is a valid absolute name
+   whose own uncompressed encoding decodes to it again *)
+Theorem from_wire_reencode : forall (msg : list Z) (off : nat) (n : name) (c : nat),
+  Forall (fun x => 0 <= x) msg ->
+  from_wire msg off = Ok (n, c) ->
+  Valid n /\ is_absolute n = true /\
+  from_wire (wire_labels false n) 0 = Ok (n, length (wire_labels false n)).
+Proof. exact NameCompress.from_wire_reencode. Qed.
+Print Assumptions from_wire_reencode.
 
 (* ---- decoding terminates on every input; pointers only go strictly backwards ---- *)
 (* the model's loop runs on fuel S ((S start) * (S (length wire))); the fuel marker
